@@ -70,6 +70,7 @@ Definition tokenize_with (sc : scanners) (text : str) : list token * option exn 
 Definition options_to_items_with (sc : scanners) (text : str) : res (list (str * str)) :=
   let '(toks, pending) := tokenize_with sc text in to_items toks pending None.
 
-(* options_to_items with every scanner taken from the translated source *)
+(* options_to_items with every scanner and the _tokenize loop taken from the translated source
+   (Gen/OptSrc.v: tokenize_src); _to_tokens / options_to_items themselves are the hand model *)
 Definition options_to_items_src (text : str) : res (list (str * str)) :=
-  options_to_items_with src_scanners text.
+  let '(toks, pending) := tokenize_src text in to_items toks pending None.
